@@ -85,14 +85,14 @@ type Map struct {
 }
 
 type Chan struct {
-	Buf    []Value
-	Timer  bool
+	Buf   []Value
+	Timer bool
 	// timers: Expired = created with a duration <= 0 (ready at once);
 	// Deadline = clock at creation + duration
 	Expired  bool
 	Deadline *smt.Term
-	Closed bool
-	Name   string
+	Closed   bool
+	Name     string
 }
 
 // Opaque is a library object the engine does not look into.
